@@ -1,7 +1,7 @@
 (** Executable comparisons ([agree_*]: the model computes what the implementation was observed to
     compute) and property oracles ([oracle_*]: the property evaluated on the implementation's
     observation alone) for the C11 correspondence suites (checks/C11.py, harness eiocodec.go). *)
-From SioV Require Import Eio.Payload Eio.WTFrame.
+From SioV Require Import Eio.Payload Eio.WTFrame Eio.CodecSpec.
 Local Open Scope N_scope.
 
 (** ** Data descriptions shared with the harness *)
@@ -66,15 +66,7 @@ Definition oracle_pkt (c : pkt_case) : bool :=
   let p := mkPacket b t (data_of d) in
   (Z.of_N (wobs_len wire) =? elen)%Z
   && (if packet_ok p then packet_matches p dec else not_panic dec)
-  && match wire with
-     | WLit w =>
-         if b then (if sb then beq w (data_of d)
-                    else match w with
-                         | c0 :: w' => (c0 =? 98) && match b64_dec w' with Some x => beq x (data_of d) | None => false end
-                         | [] => false end)
-         else beq w ((48 + t) mod 256 :: data_of d)
-     | WSum _ _ _ => true
-     end.
+  && (if packet_ok p then wire_matches (spec_packet sb p) wire else true).
 
 (** ** Arbitrary bytes through Decode *)
 Definition dec_case := (bytes * bool * pobs)%type.
@@ -131,7 +123,8 @@ Definition oracle_pay (c : pay_case) : bool :=
   && match pk with
      | [] => (cl =? 1) && (wobs_len wire =? 0)      (* v4 cannot represent the empty list *)
      | _ => if forallb packet_ok pk && forallb text_sep_free pk
-            then (cl =? 0) && all_match pk os else negb (cl =? 2)
+            then (cl =? 0) && all_match pk os && wire_matches (spec_payload pk) wire
+            else negb (cl =? 2)
      end.
 
 Definition paydec_case := (bytes * cls * list pobs)%type.
@@ -208,7 +201,7 @@ Definition oracle_wt (c : wt_case) : bool :=
   let p := mkPacket b t (data_of d) in
   let n := Z.to_N (encoded_len true p) in
   reads_bounded r o
-  && (wobs_len wire =? nlen (wt_header n b) + n)
+  && (if packet_ok p then wire_matches (spec_frame p) wire else true)
   && (if negb (packet_ok p) then not_panic dec
       else if exceeds r n then match dec with PErr => true | _ => false end
       else packet_matches p dec && (rest =? nlen trail)).
@@ -224,8 +217,7 @@ Definition oracle_wtlen (c : wtlen_case) : bool :=
   let '(n, b, hdr, wlen, cl, same, rest, reqs, alloc) := c in
   (cl =? 0) && same && (rest =? 1)
   && reads_bounded (Some (Z.of_N n)) (PErr, rest, reqs, wlen, alloc)
-  && (nlen hdr =? (if n <? 126 then 1 else if n <? 65536 then 3 else 9))
-  && match hdr with h0 :: _ => Bool.eqb (128 <=? h0) b | [] => false end.
+  && beq hdr (spec_header n b) && (wlen =? nlen hdr + n).
 
 Definition wtdec_case := (bytes * list N * rd * wt_read)%type.
 
